@@ -389,7 +389,17 @@ def sn_invariant(ctx, repo, pci):
                     continue
                 n += 1
                 try:
-                    iv = expr_interval(fi, val, {"self.sn": Iv(0, 0xFFFF)}, fold=lambda e, fi=fi, ci=ci: repo.fold_expr(e, fi.module, ci))
+                    # local names assigned (once, before this statement) from expressions over self.sn are evaluated first
+                    env = {"self.sn": Iv(0, 0xFFFF)}
+                    for st_ in _ast.walk(fi.node):
+                        if isinstance(st_, (_ast.Assign, _ast.AnnAssign)) and st_.value is not None and st_.lineno < node.lineno:
+                            t_ = st_.targets[0] if isinstance(st_, _ast.Assign) else st_.target
+                            if isinstance(t_, _ast.Name):
+                                try:
+                                    env[t_.id] = expr_interval(fi, st_.value, env, fold=lambda e, fi=fi, ci=ci: repo.fold_expr(e, fi.module, ci))
+                                except AnalysisError:
+                                    pass
+                    iv = expr_interval(fi, val, env, fold=lambda e, fi=fi, ci=ci: repo.fold_expr(e, fi.module, ci))
                     ok = iv.lo >= 0 and iv.hi <= 0xFFFF
                     detail = f"self.sn in [0, 0xffff]  =>  {_ast.unparse(val)} in {iv}"
                 except AnalysisError as e:
